@@ -19,6 +19,13 @@ CLAIMED["C16"] = {
   "technique": "Lean 4 proof by exhaustive decision over the regenerated table + exhaustive forked differential probes",
 }
 
+CLAIMED["C17"] = {
+  "text": "Machine-checked proof over all (si_signo, si_code) in Int x Int and all pid/uid byte contents that the model of Origin::extract (built from the regenerated consts[] table of extract.c, the ICause discriminants, has_process and From<ICause>) reports the intended cause class, reports a process exactly when the kernel supplies one and then exactly (si_pid, si_uid), takes the signal from si_signo, and that the C and Rust tables are in sync; tied to /repo by regeneration of all four tables each run, by comparing the real Origin::extract with the model on 23k+ synthetic siginfo values with poisoned union bytes, and by real deliveries (kill, raise, sigqueue, from a child, SIGCHLD exit/kill/stop, itimer, POSIX timer) through SignalsInfo<WithOrigin>.",
+  "design_ref": "DESIGN.md section 6 C17",
+  "note": "Trusted: Lean kernel, audited axioms, extractor, harness; kernelFills (which si_code carry si_pid/si_uid) is an environment table validated by the real deliveries; Linux x86_64 siginfo layout for the independent raw reader; macOS arm not modelled.",
+  "technique": "Lean 4 proof by case analysis over the regenerated lookup tables (all integers) + differential table sweep + real-delivery probes",
+}
+
 NOT_YET = {}
 ALL = ["C%02d" % i for i in range(1, 19)]
 
